@@ -898,9 +898,29 @@ impl Formatter {
                 self.writer.dedent();
             }
             Expr::If(if_expr) => {
+                // Block-form if expression (same layout as the `match` expression above).
+                self.writer.write("if ");
                 self.format_expr(&if_expr.condition.node);
-                self.writer.write(" if ");
-                // Note: This handles ternary-style if expressions
+                self.writer.writeln(":");
+                self.writer.indent();
+                if if_expr.then_body.is_empty() {
+                    self.writer.writeln("pass");
+                }
+                for stmt in &if_expr.then_body {
+                    self.format_statement(&stmt.node);
+                }
+                self.writer.dedent();
+                if let Some(else_body) = &if_expr.else_body {
+                    self.writer.writeln("else:");
+                    self.writer.indent();
+                    if else_body.is_empty() {
+                        self.writer.writeln("pass");
+                    }
+                    for stmt in else_body {
+                        self.format_statement(&stmt.node);
+                    }
+                    self.writer.dedent();
+                }
             }
             Expr::Closure(params, body) => {
                 self.writer.write("(");
